@@ -160,8 +160,9 @@ class Cyclic(Exception):
 class Encoder:
   """Numbers objects in post-order (children before parents) so that the heap is well formed."""
 
-  def __init__(self, intern: common.Interner):
+  def __init__(self, intern: common.Interner, canonical: bool = False):
     self.intern = intern
+    self.canonical = canonical  # Buildable arguments in signature order (oracle comparisons)
     self.ids: Dict[int, int] = {}
     self.nodes: List[str] = []
     self.kinds: List[str] = []
@@ -180,7 +181,7 @@ class Encoder:
     if isinstance(v, bool):
       return f"(ABool {g_bool(v)})"
     if isinstance(v, enum.Enum):
-      return f"(ASym {g_N(self.intern('enum:' + type(v).__name__ + '.' + v.name))})"
+      return f"(AOpaque {g_N(self.intern('enum:' + type(v).__name__ + '.' + v.name))})"
     if isinstance(v, int):
       return f"(AInt {g_Z(v)})"
     if isinstance(v, float):
@@ -242,10 +243,17 @@ class Encoder:
       fn = v.__fn_or_cls__
       name = sym_name(fn)
       self.fns.setdefault(name, fn)
-      args = g_list([g_pair(self.skey(key), self.ref(val)) for key, val in v.__arguments__.items()])
+      items = list(v.__arguments__.items())
+      if self.canonical:
+        order = list(config_lib.ordered_arguments(v).keys())
+        items.sort(key=lambda kv: order.index(kv[0]) if kv[0] in order else len(order))
+      args = g_list([g_pair(self.skey(key), self.ref(val)) for key, val in items])
+      tag_items = [(key, ts) for key, ts in v.__argument_tags__.items() if ts or not self.canonical]
+      if self.canonical:
+        tag_items.sort(key=lambda kv: repr(kv[0]))
       tags = g_list([
           g_pair(self.skey(key), g_list(sorted(g_N(self.intern("tag:" + t.__name__)) for t in ts)))
-          for key, ts in v.__argument_tags__.items()])
+          for key, ts in tag_items])
       return f"(NBuildable {k} {g_N(self.intern(name))} {args} {tags})", "buildable"
     if isinstance(v, Recorded) or (hasattr(v, "view") and hasattr(v, "fn")):
       items = []
